@@ -132,14 +132,17 @@ impl TypeInference {
 
         let (fatal_errors, type_warnings): (Vec<_>, Vec<_>) =
             inf.errors.iter().cloned().partition(|err| {
-                matches!(
-                    err.reason,
-                    ConstraintReason::BitwiseOp { .. }
-                        | ConstraintReason::TypeAnnotation { .. }
-                        | ConstraintReason::InvalidCast
-                        | ConstraintReason::UnknownType { .. }
-                        | ConstraintReason::IntLiteralOverflow { .. }
-                )
+                // past the depth limit the expression was replaced by null: the program
+                // cannot be compiled as written
+                matches!(err.kind, crate::constraint::TypeErrorKind::RecursionLimit)
+                    || matches!(
+                        err.reason,
+                        ConstraintReason::BitwiseOp { .. }
+                            | ConstraintReason::TypeAnnotation { .. }
+                            | ConstraintReason::InvalidCast
+                            | ConstraintReason::UnknownType { .. }
+                            | ConstraintReason::IntLiteralOverflow { .. }
+                    )
             });
 
         if !fatal_errors.is_empty() {
